@@ -567,6 +567,16 @@ func parseEMLAttachmentEmbed(contentDisposition []string, multiPart *multipart.P
 			filename = name
 		}
 	}
+	// A quoted file name may contain a semicolon and non-ASCII file names are written as RFC 2047
+	// encoded words: let the MIME package parse the parameters, if it is able to
+	if _, params, err := mime.ParseMediaType(contentDisposition[0]); err == nil {
+		if name, ok := params["filename"]; ok && name != "" {
+			filename = name
+			if decoded, err := (&mime.WordDecoder{}).DecodeHeader(name); err == nil {
+				filename = decoded
+			}
+		}
+	}
 
 	var dataReader io.Reader
 	dataReader = multiPart
